@@ -39,6 +39,7 @@ pub fn close_window(w: &mut World) {
         let n_reg = calls.iter().filter(|c| c.0 == RegCall::Register).count();
         let any_failed = calls.iter().any(|c| !c.1);
         let mut bad: Option<(&str, String)> = None;
+        let mut undisturbed = false;
         match eff {
             Ret::Reregister => {
                 if self_removed {
@@ -62,6 +63,9 @@ pub fn close_window(w: &mut World) {
                 let allowed_unreg = if self_removed { 2 } else { 0 };
                 if n_rereg != 0 || n_reg != 0 || n_unreg > allowed_unreg {
                     bad = Some(("action-without-request", format!("effective action Continue, calls {:?}", calls)));
+                    if n_unreg > allowed_unreg {
+                        undisturbed = true;
+                    }
                 }
             }
         }
@@ -69,6 +73,9 @@ pub fn close_window(w: &mut World) {
         if let Some((c, d)) = bad {
             let culprit = if errd { format!("{}-after-error", c) } else { c.to_string() };
             w.alarm("C09.applied_once", &culprit, format!("source #{}: {}", uid, d));
+        }
+        if undisturbed {
+            w.alarm("C07.others_undisturbed", "enabled-source-unregistered-without-request", format!("source #{} was unregistered after its event processing although it asked for nothing: somebody else's disable reached it", uid));
         }
         if any_failed {
             w.had_reg_failure = true;
@@ -221,7 +228,6 @@ pub fn reg_event(uid: Uid, call: RegCall, ok: bool, injected: bool) {
                         c.armed = true;
                         c.edge_pending = fd_ready_for(c);
                         if in_dispatch {
-                            c.modified_at = d;
                             c.rereg_at = d;
                         }
                     }
